@@ -166,22 +166,40 @@ func (x *Exec) runTop() {
 		if label == "" {
 			label = fmt.Sprintf("%d", k+1)
 		}
-		if wit, ok := ct.Witness[label]; ok && len(fr.retState) > 0 {
+		if wit, ok := ct.Witness[label]; (ok || en.At != "") && len(fr.retState) > 0 {
 			// existentials with named witnesses are proved per return, with the
-			// witness expressions read at that return
+			// witness expressions read at that return; clauses anchored at a return
+			// statement ("[label @ snippet]") are proved at the matching returns only
 			var conj []Term
+			matched := 0
 			for ri := range fr.retState {
 				rst := fr.retState[ri]
+				if en.At != "" {
+					ins := fr.retBlock[ri].Instrs[len(fr.retBlock[ri].Instrs)-1]
+					line := x.lineText(ins.Pos())
+					if !strings.Contains(line, en.At) {
+						continue
+					}
+					matched++
+					if en.AtN != 0 && matched != en.AtN {
+						continue
+					}
+				}
 				renv := x.envAt(fr, fr.retBlock[ri], rst)
 				x.bindResults(renv, fn, tupleOf(fr.retVals[ri], fn.Signature.Results()))
 				renv.postMode = true
 				renv.witness = map[string]Val{}
+				x.lookupAtEnd = true
 				for _, wb := range wit {
 					renv.witness[wb.Name] = x.evalVal(renv, wb.E)
 				}
 				t := x.evalBool(renv, en.E)
+				x.lookupAtEnd = false
 				x.oblige("post", fmt.Sprintf("post#%s@r%d", label, ri+1), rst.Guard, t, "postcondition (witnesses given) at return "+fmt.Sprint(ri+1)+": "+en.Text, fr.retBlock[ri].Instrs[len(fr.retBlock[ri].Instrs)-1].Pos(), false)
 				conj = append(conj, mkImp(rst.Guard, t))
+			}
+			if en.At != "" && matched == 0 {
+				panic(toolErr(fmt.Sprintf("no return statement matches the anchor %q of clause [%s]", en.At, label)))
 			}
 			continue
 		}
@@ -193,8 +211,44 @@ func (x *Exec) runTop() {
 	}
 	x.cover("cover:exit", exit.Guard, "some execution reaches a return under the preconditions and invariants")
 	// must-fail canary: the negation of the first postcondition must not be provable
-	if len(ct.Ensures) > 0 && !x.discover {
-		t := x.evalBool(penv, ct.Ensures[0].E)
+	canaryIdx := -1
+	for k, en := range ct.Ensures {
+		label := en.Name
+		if label == "" {
+			label = fmt.Sprintf("%d", k+1)
+		}
+		if _, w := ct.Witness[label]; !w && en.At == "" {
+			canaryIdx = k
+			break
+		}
+	}
+	if canaryIdx < 0 && len(ct.Ensures) > 0 && !x.discover && len(fr.retState) > 0 {
+		// only return-anchored clauses: the canary negates the first one at its first matching return
+		en := ct.Ensures[0]
+		for ri := range fr.retState {
+			ins := fr.retBlock[ri].Instrs[len(fr.retBlock[ri].Instrs)-1]
+			if en.At != "" && !strings.Contains(x.lineText(ins.Pos()), en.At) {
+				continue
+			}
+			renv := x.envAt(fr, fr.retBlock[ri], fr.retState[ri])
+			x.bindResults(renv, fn, tupleOf(fr.retVals[ri], fn.Signature.Results()))
+			x.lookupAtEnd = true
+			if wit, ok := ct.Witness[en.Name]; ok {
+				renv.witness = map[string]Val{}
+				for _, wb := range wit {
+					renv.witness[wb.Name] = x.evalVal(renv, wb.E)
+				}
+			}
+			t := x.evalBool(renv, en.E)
+			x.lookupAtEnd = false
+			o := &Obligation{Name: x.topKeyShort() + "/canary:not-post#1", Kind: "canary", Func: x.topKeyShort(), Prefix: len(x.lines),
+				Goal: mkImp(fr.retState[ri].Guard, mkNot(t)).S, Detail: "vacuity canary: the negated first postcondition must NOT be provable", MustFail: true}
+			x.obls = append(x.obls, o)
+			break
+		}
+	}
+	if canaryIdx >= 0 && !x.discover {
+		t := x.evalBool(penv, ct.Ensures[canaryIdx].E)
 		o := &Obligation{Name: x.topKeyShort() + "/canary:not-post#1", Kind: "canary", Func: x.topKeyShort(), Prefix: len(x.lines),
 			Goal: mkImp(exit.Guard, mkNot(t)).S, Detail: "vacuity canary: the negated first postcondition must NOT be provable", MustFail: true}
 		x.obls = append(x.obls, o)
